@@ -105,7 +105,7 @@ class Header(_Header):
             self.llen = (packet[0] & 0x03)
         del packet[0]
 
-        if (self._lenfmt == 0 and self.llen > 0) or self._lenfmt == 1:
+        if (self._lenfmt == 0 and self._llen > 0) or self._lenfmt == 1:
             self.length = packet
 
         else:
